@@ -289,6 +289,17 @@ Definition run_case' (e : sexp) : str :=
     match dDoc de with
     | Some d => if str_eqb mode (s2l "c10") then run_c10 id d impl extra
                 else if str_eqb mode (s2l "c11") then run_c11 id d impl extra
+                else if str_eqb mode (s2l "c03") then
+                  match dList dZ extra with
+                  | Some lb =>
+                    with_parsed id d impl (fun pd =>
+                      let '(cl, codes) := check_c03 d pd lb in
+                      [kv "holds" (bool_str (Nat.eqb cl 0)); kv "clause" (nat_str cl);
+                       kv "agree" (bool_str (items_agree d pd));
+                       kv "codes" (join [44%N] (map nat_str codes));
+                       kv "npages" (nat_str (length (observed_pages pd)))])
+                  | None => line [kv "id" id; kv "bad" (s2l "extra")]
+                  end
                 else if str_eqb mode (s2l "c08") then
                   match dList dBool extra with
                   | Some inh => run_simple (fun d pd => check_c08 d pd inh) id d impl
